@@ -140,6 +140,14 @@ func runC08(r *Run) {
 			r.Probe("gradient_pair_near_break_even")
 		}
 	}
+	if t.Chance(8, "round-constant-pair") {
+		// a pair straddling a round duration (1 ms, 1 s, 1 min, 1 h, 1 day in ns): where plausibility cut-offs and
+		// unit conversions live
+		c := []int64{1e6, 1e9, 6e10, 36e11, 864e11}[t.Intn(5, "round-constant")]
+		lo = c - int64(t.Intn(3, "below"))
+		hi = c + 1 + int64(t.Intn(3, "above"))
+		r.Probe("pair_straddles_round_duration")
+	}
 	if hi > 1<<60 || hi <= lo {
 		hi = lo + 1
 	}
